@@ -23,6 +23,10 @@ func VH_C09_votes(n int, m int, pat int, ed int) {
 	state, err := protocol.NewViewStates(w.Chain, w.Auth)
 	vassert(err == nil, "viewstates")
 	vm := New(logging.VNop(), el, w.Cfg, w.Chain, w.Auth, state)
+	// the collector may be in any view (at, before or - after a timeout - beyond the block's)
+	cur := hotstuff.View(nondetU64("current-view"))
+	vassume(cur >= 1 && cur < 1<<40)
+	state.VSetView(cur)
 	var qcs []hotstuff.QuorumCert
 	eventloop.Register(el, func(nv hotstuff.NewViewMsg) {
 		if qc, ok := nv.SyncInfo.QC(); ok {
@@ -128,6 +132,10 @@ func VH_C09_hostile_then_honest(n int, h int, two int, where int) {
 	state, err := protocol.NewViewStates(w.Chain, w.Auth)
 	vassert(err == nil, "viewstates")
 	vm := New(logging.VNop(), el, w.Cfg, w.Chain, w.Auth, state)
+	// the collector may be in any view (at, before or - after a timeout - beyond the block's)
+	cur := hotstuff.View(nondetU64("current-view"))
+	vassume(cur >= 1 && cur < 1<<40)
+	state.VSetView(cur)
 	var qcs []hotstuff.QuorumCert
 	eventloop.Register(el, func(nv hotstuff.NewViewMsg) {
 		if qc, ok := nv.SyncInfo.QC(); ok {
